@@ -9,6 +9,7 @@ import (
 	"encoding/hex"
 	"encoding/json"
 	"fmt"
+	"github.com/tidwall/gjson"
 	"math"
 	"os"
 	"sort"
@@ -142,7 +143,7 @@ type world struct {
 	htltCreated, htltClaimed, oracleRandom, seedProviders, timePromoBindings int
 	discardedAfterExec, historyShortened, foreignProviders                   int
 	autoPaused, foreignPriced, priceCalls, hugePrices, farRandom             int
-	rateTemplates, nftTwinIDs, toEscrow                                      int
+	rateTemplates, nftTwinIDs, toEscrow, hugeValues, oddValues               int
 	escrows                                                                  map[string]bool // pool escrow addresses named as recipients
 }
 
@@ -169,8 +170,37 @@ func (w *world) shapeClasses() []string {
 	add(w.rateTemplates > 0, "exchange-rate-template")
 	add(w.farRandom > 0, "random-request-due-beyond-2^31")
 	add(w.nftTwinIDs > 0, "nft-id-used-in-two-classes")
+	add(w.hugeValues > 0, "provider-reported-an-astronomical-value")
+	add(w.hugeValues > 0 && w.rateTemplates > 0 && w.foreignPriced > 0, "astronomical-value-in-a-history-with-exchange-rate-feeds-and-bindings-priced-through-them")
+	add(w.oddValues > 0, "provider-reported-zero-or-a-negative-value")
 	add(w.toEscrow > 0, "coins-sent-to-a-pool-escrow-by-a-third-party")
 	return cl
+}
+
+// hValue is the number a provider reports: mostly an everyday price, sometimes zero, negative, tiny or astronomically
+// large (feed values are what providers say they are; the pair feeds are read back as exchange rates by the service
+// module's end blocker).
+func hValue(t *rapid.T, rates bool) string {
+	if v := os.Getenv("VERIF_HVALUE"); v != "" {
+		return v // generator switch for sensitivity runs
+	}
+	if rates && rapid.IntRange(0, 3).Draw(t, "ratekind") == 0 {
+		// the history has exchange-rate feeds: what their providers report is multiplied into prices and deposits
+		return rapid.SampledFrom([]string{"1e60", "9e75", "1e76", "1e78", "1e300", "0", "-1", "0.00000001"}).Draw(t, "rate")
+	}
+	switch k := rapid.IntRange(0, 1<<20).Draw(t, "valkind") % 16; k {
+	case 11:
+		return "0"
+	case 12:
+		return fmt.Sprintf("-%d.5", rapid.IntRange(0, 5000).Draw(t, "neg"))
+	case 13:
+		return "0.00000001"
+	case 14:
+		return rapid.SampledFrom([]string{"1e30", "1e60", "9e76", "1e78", "1e300"}).Draw(t, "huge")
+	case 15:
+		return rapid.SampledFrom([]string{"18446744073709551616", "340282366920938463463374607431768211456"}).Draw(t, "pow2")
+	}
+	return fmt.Sprintf("%d.%02d", rapid.IntRange(0, 5000).Draw(t, "val"), rapid.IntRange(0, 99).Draw(t, "frac"))
 }
 
 // startHeights: a chain may start at any height (a restart from an exported genesis continues the old numbering):
@@ -332,7 +362,7 @@ func (h *hist) nextTx(t *rapid.T) (txSpec, bool) {
 		if len(reqs) > 0 {
 			r := pick(t, "feedreq", reqs)
 			if pu := userIndex(h.n, r.provider); pu >= 0 {
-				out := fmt.Sprintf(`{"header":{},"body":{"last":"%d.%02d"}}`, rapid.IntRange(0, 5000).Draw(t, "val"), rapid.IntRange(0, 99).Draw(t, "frac"))
+				out := fmt.Sprintf(`{"header":{},"body":{"last":"%s"}}`, hValue(t, w.rateTemplates > 0))
 				msgs := h.enc(&servicetypes.MsgRespondService{RequestId: r.id, Provider: r.provider, Result: hResult, Output: out})
 				if rapid.IntRange(0, 5).Draw(t, "discardanswer") == 3 {
 					// the answer (and the feed value it would append) is executed and then discarded with its transaction;
@@ -854,7 +884,7 @@ func (h *hist) nextTx(t *rapid.T) (txSpec, bool) {
 			if pu < 0 {
 				return txSpec{}, false
 			}
-			out := fmt.Sprintf(`{"header":{},"body":{"last":"%d.%02d"}}`, rapid.IntRange(0, 5000).Draw(t, "val"), rapid.IntRange(0, 99).Draw(t, "frac"))
+			out := fmt.Sprintf(`{"header":{},"body":{"last":"%s"}}`, hValue(t, false))
 			if rid, err := hex.DecodeString(r.id); err == nil {
 				if rq, ok := k.Service.GetRequest(ctx, rid); ok && rq.ServiceName == randomtypes.ServiceName {
 					// the seed service of the random module answers with 32 bytes in hex
@@ -1015,6 +1045,14 @@ func (h *hist) observe(op blockOp, resp *abci.ResponseFinalizeBlock) {
 			switch x := m.(type) {
 			case *nfttypes.MsgIssueDenom:
 				w.nftDenoms = append(w.nftDenoms, hDenom{x.Id, tx.User})
+			case *servicetypes.MsgRespondService:
+				if v := gjson.Get(x.Output, "body.last").String(); v != "" {
+					if f, err := strconv.ParseFloat(v, 64); err == nil && f >= 1e19 {
+						w.hugeValues++
+					} else if err == nil && f <= 0 {
+						w.oddValues++
+					}
+				}
 			case *coinswaptypes.MsgSwapOrder:
 				if w.escrows[x.Output.Address] {
 					w.toEscrow++
